@@ -35,6 +35,7 @@ func main() {
 	loops := flag.Int("loops", 0, "loop bound override")
 	verbose := flag.Bool("v", false, "verbose")
 	explain := flag.String("explain", "", "print a report file")
+	evdir := flag.String("evdir", "", "write evidence/report files here instead of <verif>/evidence (used when checking scratch variants)")
 	noCanary := flag.Bool("nocanary", false, "do not add canary overlay")
 	var opaques multiFlag
 	flag.Var(&opaques, "opaque", "debug: canonical callee name kept opaque (repeatable)")
@@ -186,6 +187,10 @@ func main() {
 				}()
 				props[id](w, r)
 			}()
+		}
+		r.evDir = *evdir
+		if *tier == "thorough" && err == nil && len(ov) == 0 {
+			runSelfTest(r, id, *repo, vdir)
 		}
 		if st := r.Finish(vdir, cmd); st != 0 {
 			status = 1
